@@ -139,10 +139,18 @@ class Recorder:
 
     def log(self, ev, **kw):
         s = ds._CURRENT_SCHED
+        if s is not None and s.aborting:
+            raise ds.Abort()          # the process is dead (crash): nothing more is observed or executed
         if s is not None:
+            if ev == "LogCall":
+                kw["done"] = sorted(o for o, r in self.backend.ops.items() if r["Status"] in
+                                    ("SUCCEEDED", "FAILED", "CANCELLED", "TIMED_OUT", "STOPPED") and r["Type"] != "EXECUTION")
             s.log(ev, inv=self.inv, **kw)
 
     def fn_enter(self, path, kind="step"):
+        s0 = ds._CURRENT_SCHED
+        if s0 is not None and s0.aborting:
+            raise ds.Abort()
         oid = path_id(path)
         rec = self.backend.ops.get(oid)
         be_status = rec["Status"] if rec else None
@@ -240,8 +248,8 @@ def build_handler(prog: dict, rec: Recorder):
         for node in nodes:
             k = node["k"]
             if k == "log":
-                ctx.logger.info(f"{prefix}@{node['pt']}")
                 rec.log("LogCall", pt=f"{prefix}@{node['pt']}")
+                ctx.logger.info(f"{prefix}@{node['pt']}")
                 continue
             i += 1
             run_node(ctx, node, f"{prefix}{i}", obs)
@@ -272,8 +280,8 @@ def build_handler(prog: dict, rec: Recorder):
             def fn(step_ctx, node=node, path=path):
                 attempt, be = rec.fn_enter(path)
                 if node.get("loginside"):
-                    step_ctx.logger.info(f"{path}@inside")
                     rec.log("LogCall", pt=f"{path}@inside")
+                    step_ctx.logger.info(f"{path}@inside")
                 rec.gate(node.get("gate") or f"fn:{path}")
                 if node.get("dur"):
                     ds.vsleep(node["dur"])      # the user function takes (virtual) time
@@ -419,8 +427,8 @@ def build_handler(prog: dict, rec: Recorder):
         # from the callback's own index, so they are executed through the shared counter of `ctx`.
         for j, node in enumerate(nodes):
             if node["k"] == "log":
-                ctx.logger.info(f"{cbpath}@{node['pt']}")
                 rec.log("LogCall", pt=f"{cbpath}@{node['pt']}")
+                ctx.logger.info(f"{cbpath}@{node['pt']}")
                 continue
             comps = cbpath.split("/")
             base = int(comps[-1])
